@@ -110,17 +110,23 @@ func guardRun(f func() error) (kind, msg string) {
 // everything; it only observes, and fails on purpose where the call's fault plan says so.
 type proxyOp struct {
 	ops.Operator
-	ctx *callCtx
-	idx int
-	typ string
+	// ctxOf resolves the call context at the moment a method is invoked, never at creation: a tree that creates
+	// its operators once per Model and re-uses them must still see each call's own fault plan and nobody else's.
+	ctxOf func() *callCtx
+	idx   int
+	typ   string
 }
 
 func (p *proxyOp) fire(when string) error {
-	f := p.ctx.fault
+	ctx := p.ctxOf()
+	if ctx == nil {
+		return nil
+	}
+	f := ctx.fault
 	if f == nil || f.Node != p.idx || f.When != when {
 		return nil
 	}
-	p.ctx.fired = true
+	ctx.fired = true
 	if f.Mode == "panic" {
 		panic("verifsim: injected operator panic at node " + fmt.Sprint(p.idx))
 	}
@@ -145,14 +151,18 @@ func (p *proxyOp) Apply(in []tensor.Tensor) ([]tensor.Tensor, error) {
 	if err := p.fire("apply"); err != nil {
 		return nil, err
 	}
-	if s := p.ctx.sch; s != nil {
-		s.curNodeOp[p.ctx.task] = p.typ
+	ctx := p.ctxOf()
+	if ctx == nil {
+		return p.Operator.Apply(in)
+	}
+	if s := ctx.sch; s != nil {
+		s.curNodeOp[ctx.task] = p.typ
 	}
 	out, err := p.Operator.Apply(in)
-	if s := p.ctx.sch; s != nil {
-		s.curNodeOp[p.ctx.task] = ""
+	if s := ctx.sch; s != nil {
+		s.curNodeOp[ctx.task] = ""
 	}
-	if p.ctx.attrib {
+	if ctx.attrib {
 		h := fnv.New64a()
 		var b [8]byte
 		for _, t := range out {
@@ -162,7 +172,7 @@ func (p *proxyOp) Apply(in []tensor.Tensor) ([]tensor.Tensor, error) {
 		if err != nil {
 			h.Write([]byte("err"))
 		}
-		p.ctx.trace = append(p.ctx.trace, nodeTrace{Op: p.typ, Out: h.Sum64()})
+		ctx.trace = append(ctx.trace, nodeTrace{Op: p.typ, Out: h.Sum64()})
 	}
 	if err == nil {
 		if e := p.fire("after"); e != nil {
@@ -191,7 +201,7 @@ func (x *executor) wrapGetter(orig gonnx.OpGetter, ctxOf func() *callCtx) gonnx.
 		if err != nil {
 			return op, err
 		}
-		return &proxyOp{Operator: op, ctx: ctx, idx: idx, typ: opType}, nil
+		return &proxyOp{Operator: op, ctxOf: ctxOf, idx: idx, typ: opType}, nil
 	}
 }
 
@@ -394,6 +404,7 @@ type worldRun struct {
 	switches int64
 	aborted bool
 	overlapOps map[string]int64
+	holds int64
 	finalWChanged []string
 }
 
@@ -461,9 +472,12 @@ func execute(c *Case, pol policy, attrib bool, checkState bool) *worldRun {
 			t.mapCalls++
 			return rng.New(rng.Mix(c.World.MapSeed, uint64(t.id), t.mapCalls)).Perm(k)
 		}
+		s.foreign = verifsim.ForeignGoroutines
 		verifsim.Hook = s.hook
+		verifsim.HoldHook = s.holdHook
 		s.run(fns)
 		verifsim.Hook = nil
+		verifsim.HoldHook = nil
 		verifsim.Order = nil
 		rec := s.rec
 		wr.sched = &rec
@@ -472,6 +486,7 @@ func execute(c *Case, pol policy, attrib bool, checkState bool) *worldRun {
 		wr.switches = s.switches
 		wr.aborted = s.aborted
 		wr.overlapOps = s.overlapOps
+		wr.holds = s.holds
 		for _, t := range s.tasks {
 			wr.yields = append(wr.yields, t.yields)
 		}
